@@ -88,10 +88,17 @@ def parser_cases(run, drv):
         need = max(1, (v.bit_length() + 31) // 32)
         req.append("pmask %d %x" % (need + rng.choice([0, 0, 0, 1, 2, 5]), v))
         req.append("plist %x" % v)
-    rc, out, err = C.sh([drv, "print"], input=("\n".join(req) + "\n").encode(), timeout=600)
-    if rc != 0:
-        raise RuntimeError("model printer failed: " + err.decode(errors="replace")[-2000:])
-    texts = out.decode().split("\n")
+    def run_print(part):
+        rc, out, err = C.sh([drv, "print"], input=("\n".join(part) + "\n").encode(), timeout=900)
+        if rc != 0:
+            raise RuntimeError("model printer failed: " + err.decode(errors="replace")[-2000:])
+        return out.decode().split("\n")[:len(part)]
+    step = max(2, 2 * ((len(req) // 2 + C.NCPU - 1) // C.NCPU))
+    parts = [req[k:k + step] for k in range(0, len(req), step)]
+    texts = []
+    with cf.ThreadPoolExecutor(max_workers=C.NCPU) as ex:
+        for r in ex.map(run_print, parts):
+            texts += r
     for i, v in enumerate(sets):
         cases.append(("mask", bytes.fromhex(texts[2 * i]), set_text(v), "printed"))
         cases.append(("list", bytes.fromhex(texts[2 * i + 1]), set_text(v), "printed"))
@@ -707,6 +714,7 @@ def make_snapshot_cases(run, pool, snaps):
     rng = run.rng
     quick = run.tier == "quick"
     cases = []       # (label, case)
+    enumerated = run.cov.setdefault("enumerated_completely", {})
     for snap in snaps:
         rem = removable_of(pool, snap)
         sysrem = [p for p in rem if "sys/devices/system/" in p or snap.kind == "x86" or "/cpuid/" in p]
@@ -714,11 +722,11 @@ def make_snapshot_cases(run, pool, snaps):
         comps, env, filters, flags = gen_config(rng, snap, plain=True)
         cases.append(("pristine", (snap, comps, env, [], 0, [])))
         # 2. configurations without removal
-        for _ in range(3 if quick else 24):
+        for _ in range(3 if quick else 8):
             comps, env, filters, flags = gen_config(rng, snap)
             cases.append(("config", (snap, comps, env, filters, flags, [])))
         # 3. random removal sets (up to 40 paths) x random configuration
-        for _ in range(22 if quick else 110):
+        for _ in range(22 if quick else 40):
             comps, env, filters, flags = gen_config(rng, snap, plain=rng.random() < 0.3)
             pool_paths = rem
             if snap.kind == "x86+linux":
@@ -727,14 +735,24 @@ def make_snapshot_cases(run, pool, snaps):
         # 4. enumerated single / pairwise removals under sys/devices/system (x86: the whole dump) for small snapshots
         comps, env, filters, flags = gen_config(rng, snap, plain=True)
         if quick:
-            singles = rng.sample(sysrem, min(len(sysrem), 12))
+            # biased to the files discovery reads (cpumap, *_siblings, online, meminfo ...)
+            singles = sorted(set(rng.choices(sysrem, weights=[G.interest(p) for p in sysrem], k=24))) if sysrem else []
             pairs = []
         else:
-            singles = sysrem if len(sysrem) <= 450 else rng.sample(sysrem, 450)
-            top = G.normalise(sysrem)
-            pairs = [(a, b) for i, a in enumerate(sysrem) for b in sysrem[i + 1:] if not b.startswith(a + "/")] if len(sysrem) <= 36 else []
-            if not pairs and sysrem:
-                pairs = [tuple(sorted(rng.sample(sysrem, 2))) for _ in range(120)] if len(sysrem) > 1 else []
+            # small snapshots: every single removal (<= 60 removable paths) and every pair (<= 12) is enumerated;
+            # larger ones are sampled, biased to the files discovery reads
+            if len(sysrem) <= 60:
+                singles = list(sysrem)
+                enumerated.setdefault("singles", []).append(snap.rel)
+            else:
+                singles = sorted(set(rng.choices(sysrem, weights=[G.interest(p) for p in sysrem], k=80)))
+            if 2 <= len(sysrem) <= 12:
+                pairs = [(a, b) for i, a in enumerate(sysrem) for b in sysrem[i + 1:] if not b.startswith(a + "/")]
+                enumerated.setdefault("pairs", []).append(snap.rel)
+            elif len(sysrem) > 12:
+                pairs = [tuple(sorted(rng.sample(sysrem, 2))) for _ in range(40)]
+            else:
+                pairs = []
         for p in singles:
             cases.append(("single", (snap, comps, env, [], rng.choice([0, 0, 1]), [p])))
         for a, b in pairs:
